@@ -96,8 +96,8 @@ CHECKS = {
         technique="Lean 4 proof (forest / distinct-sibling invariant by induction over all balanced operation sequences) + EXHAUSTIVE small-scope differential of every navigation observer",
         text="Lean theorems C08_wellformed, C08_sibling_scopes_distinct, C08_children(+_ordered), C08_partition, C08_lookup_first, C08_reopen_continues about the abstract parent-pointer "
              "specification, for every balanced sequence of scope / flattened scope / var / pop operations. The pointer-level Lean model of HierarchyBuilder (child/next/parent links, scope stack, "
-             "find_last_child) and the real code are compared with the specification on ALL operation sequences of length <= 6 over 7 operations plus long random sequences; the reply covers "
-             "items(), vars()/scopes(), full names, lookup_scope/lookup_var on present and absent paths, iter_vars/iter_scopes, the signal table and first_scope.",
+             "find_last_child) and the real code are compared with the specification on ALL operation sequences of length <= 6 over 7 operations, ALL sequences of length <= 6 over a second alphabet with same-named variables of different bit index, plus long random sequences; the reply covers "
+             "items(), vars()/scopes(), full names, lookup_scope / lookup_var / lookup_var_with_index on present and absent paths, iter_vars/iter_scopes, the signal table and first_scope.",
         design_ref="DESIGN.md section 5 / C08",
         note="The refinement pointer-level model = specification is NOT a theorem; it is established by exhaustive enumeration to length 6 (7 in the thorough tier) and random sequences to length 200. "
              "Hierarchies built by the three loaders are covered through the C09/C10/C11/C14 file-level dumps. HashMap / Vec are trusted.",
